@@ -1,4 +1,5 @@
 import SupervisorModel.Lemmas.SupFrame
+import SupervisorModel.Props.C04
 /-
   C05 — shutdown and restart stop everything, in priority order, and only then exit.
   Theorems over the per-process model and the daemon model (Model/Sup.lean); the daemon model is
@@ -258,5 +259,82 @@ example :
     let r := passes [{ now := 1024000, spawns := [.ok 7, .ok 8], waits := [[]], sig := some 15 },
                      { now := 1025000, kills := [.ok, .ok], waits := [[]], sig := some 1 }] s2
     (r.outs.filter (· == SOut.stopping)).length = 1 ∧ r.mood = moodSHUTDOWN ∧ r.stopping = true := by decide +kernel
+
+
+/-! ### why the shutdown completes: nothing postpones the escalation, and the loop exits when it can
+
+  "It does exit provided every child dies on SIGKILL" is a liveness statement about the daemon, the
+  kernel and the clock together.  What the code contributes to it is proved here as safety facts:
+  a process that is being stopped is left alone by the repeated `stop_all()` of phase 1; it leaves
+  STOPPING only by being reaped; its SIGKILL deadline never moves away (it is only ever lowered,
+  until SIGKILL is sent, which re-arms it exactly `stopwaitsecs` ahead); at the first pass whose
+  clock has reached the deadline SIGKILL is sent (`C04.sigkill_when_due`); a reaped child leaves the
+  process STOPPED (`C04.stopped_whatever_status`); and the very pass that finds nothing unstopped
+  exits.  The rest — that the clock reaches the deadline and that a child dies on SIGKILL — is the
+  environment's side, exercised by the scenarios (monitor `shutdown-did-not-finish`). -/
+
+/-- **Phase 1 does not disturb a process that is already being stopped**: `stop_all()`, which the loop
+    calls for the head group on *every* pass of the shutdown, does nothing at all to a STOPPING
+    process — in particular it does not send the stop signal again and does not re-arm the SIGKILL
+    deadline. -/
+theorem stop_all_skips_stopping (cfg : Cfg) (now : Int) (kr : KillRes) (p : Proc) (hs : p.state = .stopping) :
+    groupStop cfg now kr { p := p } = { p := p } := by
+  simp [groupStop, guard, hs]
+
+/-- **STOPPING is left only by the reap** (or by a failed signal delivery, the UNKNOWN exception):
+    a pass over a STOPPING process that holds a child keeps it STOPPING with the same child, without
+    raising, whatever the clock, the mood and the environment answers. -/
+theorem stopping_left_only_by_reap (cfg : Cfg) (p : Proc) (now mood : Int) (res : SpawnRes) (kr : KillRes)
+    (hs : p.state = .stopping) (hpid : p.pid ≠ 0) (hk : kr ≠ .fail) :
+    let r := transition cfg now mood res kr { p := p }
+    r.p.state = .stopping ∧ r.p.pid = p.pid ∧ r.err = none := by
+  obtain ⟨h1, h2⟩ := C04.rollback_facts cfg now p hs
+  by_cases hd : (rollback cfg now p).delay ≤ now
+  · have := C04.sigkill_rearms cfg p now mood res kr hs hpid (by simpa [C04.deadline] using hd) hk
+    exact ⟨this.1, this.2.2.1, this.2.2.2⟩
+  · cases kr <;> simp at hk <;>
+      simp [transition, autoStart, toRunning, escalate, setP, guard, hs, h1, h2, hpid, hd,
+        transition_a1, transition_g0, transition_g1, transition_g5, transition_g7, transition_g10, transition_g12, transition_g14,
+        transition_g15, sub_le_zero_iff]
+
+/-- **The SIGKILL deadline is never postponed**: a pass over a STOPPING process either sends nothing
+    and leaves the deadline where it was or earlier (a backward clock jump can only lower it), or
+    sends SIGKILL and re-arms the deadline exactly `stopwaitsecs` after this pass. -/
+theorem deadline_never_postponed (cfg : Cfg) (p : Proc) (now mood : Int) (res : SpawnRes) (kr : KillRes)
+    (hs : p.state = .stopping) (hpid : p.pid ≠ 0) (hw : 0 ≤ cfg.stopwaitsecs) (hd : 0 < p.delay) (hk : kr ≠ .fail) :
+    let r := transition cfg now mood res kr { p := p }
+    (C04.kills r.outs = [] ∧ r.p.delay ≤ p.delay) ∨
+    (C04.kills r.outs = [.kill (C04.target cfg.killasgroup p.pid) sigKILL] ∧ r.p.delay = now + cfg.stopwaitsecs) := by
+  obtain ⟨h1, h2⟩ := C04.rollback_facts cfg now p hs
+  have hb := C04.rollback_bounded cfg p now hs hw hd
+  by_cases hdue : C04.deadline cfg now p ≤ now
+  · right
+    refine ⟨by rw [C04.sigkill_iff_due cfg p now mood res kr hs hpid, if_pos hdue], ?_⟩
+    exact (C04.sigkill_rearms cfg p now mood res kr hs hpid hdue hk).2.1
+  · left
+    refine ⟨by rw [C04.sigkill_iff_due cfg p now mood res kr hs hpid, if_neg hdue], ?_⟩
+    have hd' : ¬ (rollback cfg now p).delay ≤ now := by simpa [C04.deadline] using hdue
+    have : (transition cfg now mood res kr { p := p }).p.delay = (rollback cfg now p).delay := by
+      cases kr <;> simp at hk <;>
+        simp [transition, autoStart, toRunning, escalate, setP, guard, hs, h1, h2, hpid, hd',
+          transition_a1, transition_g0, transition_g1, transition_g5, transition_g7, transition_g10, transition_g12, transition_g14,
+          transition_g15, sub_le_zero_iff]
+    rw [this]
+    exact hb.2
+
+/-- **The loop exits as soon as it can**: the exit test of a pass that finds no process outside the
+    stopped states raises `ExitNow` in that very pass. -/
+theorem exits_when_all_stopped (s : Sup) (he : s.err = none) (hx : s.exited = false) (h : anyUnstopped s = false) :
+    (exitTest s).exited = true ∧ (exitTest s).outs = s.outs ++ [.exitNow] := by
+  simp [exitTest, sguard, he, hx, h]
+
+-- non-vacuity: a process stopped at 5000 (deadline 15240): a pass at 6000 sends nothing and keeps the deadline;
+-- the pass at 15240 sends SIGKILL and re-arms; reaping it then leaves it STOPPED
+example : let p1 := (stop C04.cfg0 5000 .ok { p := C04.p0 }).p
+    p1.state = .stopping ∧ p1.delay = 15240 ∧
+    (transition C04.cfg0 6000 (-1) (.ok 0) .ok { p := p1 }).p.delay = 15240 ∧
+    (transition C04.cfg0 15240 (-1) (.ok 0) .ok { p := p1 }).p.delay = 25480 ∧
+    (finish C04.cfg0 15300 (-1) false { p := (transition C04.cfg0 15240 (-1) (.ok 0) .ok { p := p1 }).p }).p.state = .stopped := by
+  decide +kernel
 
 end Sv.Props.C05
